@@ -1,15 +1,14 @@
 #!/usr/bin/env python3
-"""Generator of signal-layer scripts (see coq/SigDefs.v for the op language).
+"""Generator of signal-layer scripts (op language: coq/SigDefs.v, harness/sig_harness.cpp).
 
-Every random choice comes from one random.Random(seed) so a script replays from (profile, seed, length).
-Profiles:
-  clean  - only operations and slot actions that never make the library raise: used to judge C01/C04/C05/C09/C12/C15
-  fault  - adds operations that fail with library-raised exceptions (stale / foreign handles, dead evaluators,
-           nested emission of the emitting signal, throwing actions inside slots): used for C16 and the rejection clauses
-  churn  - clean, biased to connect/disconnect churn on few positions with many retained stale handles (C12/C19)
+Every random choice comes from one random.Random(seed): a script replays from (profile, seed, length).
+A profile is a feature set + weights aimed at one property; ops outside the feature set are never generated, so a
+property's check exercises (almost) only the code its theorems are about.
+
 Slot scripts never connect (connecting to an emitting signal is documented UB) and never destroy signals/evaluators.
-Signals are in two tiers: slots of tier-0 signals may emit tier-1 signals; slots of tier-1 signals never emit, and
-deferred slots never emit in the clean profiles (that bounds nesting and excludes self-feeding evaluation passes).
+Signals 0..3 are tier 0, 4..7 tier 1: slots of tier-0 signals may emit tier-1 signals; slots of tier-1 signals never
+emit; deferred slots emit only in profiles with 'deferred_emit' (their targets are tier 1, whose slots never emit, so
+evaluation passes terminate).
 """
 import random
 import sys
@@ -17,26 +16,75 @@ import sys
 KIND_ARITY = {0: 0, 1: 1, 2: 1, 3: 3}
 NH = 24  # handle variables 0..NH-1 exist from the start; NH..NH+7 are "self" variables of reflective slots
 
+# feature flags: flavours, op families, slot actions
+PROFILES = {
+    # C01: who is invoked with which values; no re-entrancy, no faults
+    'C01': dict(flavours=['plain', 'bound', 'refl', 'single', 'deferred'], slots=[], faults=False,
+                w=dict(connect=30, emit=28, disc=14, block=10, query=4, copy=4, move=6, scoped=0, blocker=0, ev=4)),
+    # C04: every disconnect route, copies, held callables
+    'C04': dict(flavours=['plain', 'bound', 'refl', 'single', 'deferred'], slots=[], faults=False,
+                w=dict(connect=28, emit=16, disc=22, block=0, query=10, copy=8, move=6, scoped=8, blocker=0, ev=4,
+                       sigdel=3)),
+    # C05: deferred connections, passes, re-entrancy inside passes
+    'C05': dict(flavours=['plain', 'deferred', 'deferred', 'deferred'],
+                slots=['disch', 'discall', 'emit', 'eval', 'active', 'scdrop'],
+                faults=False, deferred_emit=True, two_evs=True,
+                w=dict(connect=26, emit=30, disc=12, block=4, query=4, copy=3, move=5, scoped=3, blocker=0, ev=14,
+                       sigdel=2)),
+    # C09: re-entrant slots on direct connections
+    'C09': dict(flavours=['plain', 'bound', 'refl', 'single', 'refl'],
+                slots=['disch', 'discall', 'tryblockh', 'scdrop', 'emit', 'active', 'discs_safe'],
+                faults=False, dense=True,
+                w=dict(connect=30, emit=30, disc=8, block=6, query=8, copy=6, move=2, scoped=8, blocker=0, ev=0)),
+    # C12: identity of handles under churn; stale and foreign handles (foreign uses are the rejected cases)
+    'C12': dict(flavours=['plain', 'refl'], slots=[], faults=True, fault_kinds=['foreign'], churn=True,
+                w=dict(connect=34, emit=6, disc=24, block=8, query=16, copy=10, move=2, scoped=0, blocker=0, ev=0)),
+    # C15: blocking, blockers, disconnects while blockers are alive
+    'C15': dict(flavours=['plain', 'refl', 'deferred'], slots=['tryblockh', 'disch', 'active'], faults=True,
+                fault_kinds=['inactive'], few_handles=True,
+                w=dict(connect=20, emit=24, disc=8, block=22, query=6, copy=3, move=1, scoped=0, blocker=14, ev=2,
+                       sigdel=1)),
+    # C16: library-raised exceptions, also from inside emissions and passes, then valid ops
+    'C16': dict(flavours=['plain', 'refl', 'single', 'deferred'],
+                slots=['disch', 'discall', 'tryblockh', 'emit', 'eval', 'active', 'blockh', 'discs', 'isblockedh',
+                       'emit_any'],
+                faults=True, fault_kinds=['foreign', 'inactive', 'deadev', 'nested'], deferred_emit=True,
+                w=dict(connect=28, emit=30, disc=10, block=8, query=6, copy=4, move=3, scoped=2, blocker=3, ev=6)),
+    # C11: moves of signals and scoped connections
+    'C11': dict(flavours=['plain', 'refl', 'single', 'deferred'], slots=[], faults=False,
+                w=dict(connect=24, emit=22, disc=8, block=8, query=10, copy=3, move=18, scoped=12, blocker=0, ev=4,
+                       sigdel=3)),
+    # general mixes (thorough tier, C19)
+    'clean': dict(flavours=['plain', 'bound', 'refl', 'single', 'deferred'],
+                  slots=['disch', 'discall', 'tryblockh', 'scdrop', 'emit', 'active', 'eval'], faults=False,
+                  w=dict(connect=30, emit=25, disc=12, block=8, query=8, copy=5, move=3, scoped=4, blocker=3, ev=4)),
+    'fault': dict(flavours=['plain', 'bound', 'refl', 'single', 'deferred'],
+                  slots=['disch', 'discall', 'tryblockh', 'scdrop', 'emit', 'active', 'eval', 'blockh', 'discs',
+                         'isblockedh', 'emit_any'],
+                  faults=True, fault_kinds=['foreign', 'inactive', 'deadev', 'nested'], deferred_emit=True,
+                  w=dict(connect=28, emit=27, disc=12, block=8, query=8, copy=5, move=3, scoped=4, blocker=3, ev=4)),
+}
+
 
 class Gen:
     def __init__(self, seed, profile, length):
         self.r = random.Random(seed)
         self.profile = profile
+        self.p = PROFILES[profile]
         self.length = length
         self.lines = []
         self.sigs = {}      # id -> (kind, tier)
-        self.next_sig = 0
         self.scoped = set()
         self.next_scoped = 0
-        self.blockers = []  # stack of ids (well nested) + free-form ones
+        self.blockers = []
         self.next_blocker = 0
         self.evs = {}       # id -> alive
-        self.next_ev = 0
         self.next_label = 100
-        self.conn_handles = []   # handle vars that have held a connection at some time
+        self.conn_handles = []
+        self.handle_sig = {}
         self.scripts = {}
         self.stats = {}
-        self.handle_sig = {}     # handle var -> signal it was last connected on (a guess: moves are not tracked)
+        self.nh = 8 if self.p.get('few_handles') else NH
 
     def count(self, k):
         self.stats[k] = self.stats.get(k, 0) + 1
@@ -45,53 +93,54 @@ class Gen:
         self.lines.append(s)
         self.count(s.split()[0])
 
+    def fault(self, kind):
+        return self.p['faults'] and kind in self.p.get('fault_kinds', [])
+
     # ---- slot bodies -------------------------------------------------------------------------------
     def make_scripts(self):
         r = self.r
-        fault = self.profile == 'fault'
-        nscripts = 14
+        acts = self.p['slots']
         self.scripts[0] = []
         self.emitting_scripts = set()
-        for sid in range(1, nscripts):
+        if not acts:
+            return
+        for sid in range(1, 14):
             body = []
             for _ in range(r.choice([1, 1, 2, 2, 3])):
-                c = r.random()
-                h = r.randrange(NH + 8)
-                if c < 0.22:
+                a = r.choice(acts)
+                h = r.randrange(self.nh) if r.random() < 0.7 else NH + r.randrange(8)
+                if a == 'disch':
                     body.append(f"disch {h}")
-                elif c < 0.30:
-                    body.append(f"discall {r.randrange(4)}")
-                elif c < 0.42:
+                elif a == 'discall':
+                    body.append(f"discall {r.randrange(8)}")
+                elif a == 'tryblockh':
                     body.append(f"tryblockh {h} {r.randrange(2)}")
-                elif c < 0.50:
+                elif a == 'scdrop':
                     body.append(f"scdrop {r.randrange(6)}")
-                elif c < 0.62:
+                elif a == 'active':
                     body.append(f"active {h}")
-                elif c < 0.74 and sid % 2 == 0:
-                    # tier-1 signals are 4..7
-                    t = 4 + r.randrange(4)
-                    k = None
-                    body.append(("EMIT", t))
-                    self.emitting_scripts.add(sid)
-                elif c < 0.80:
-                    body.append(f"eval {r.randrange(2 if self.profile == 'deferred' else 3)}")
-                elif c < 0.86:
-                    body.append(f"heq {h} {r.randrange(NH)}")
-                elif fault:
-                    d = r.random()
-                    if d < 0.3:
-                        body.append(f"blockh {h} {r.randrange(2)}")
-                    elif d < 0.5:
-                        body.append(f"discs {r.randrange(8)} {h}")
-                    elif d < 0.7:
-                        body.append(f"isblockedh {h}")
-                    elif d < 0.85:
-                        body.append(f"blocks {r.randrange(8)} {h} {r.randrange(2)}")
+                elif a == 'discs_safe':
+                    body.append(f"discs_safe {r.randrange(8)} {h}")
+                elif a == 'emit':
+                    if sid % 2 == 0:
+                        body.append(("EMIT", 4 + r.randrange(4)))
+                        self.emitting_scripts.add(sid)
                     else:
+                        body.append(f"active {h}")
+                elif a == 'eval':
+                    body.append(f"eval {r.randrange(2 if self.p.get('two_evs') else 3)}")
+                elif a == 'blockh':
+                    body.append(f"blockh {h} {r.randrange(2)}")
+                elif a == 'discs':
+                    body.append(f"discs {r.randrange(8)} {h}")
+                elif a == 'isblockedh':
+                    body.append(f"isblockedh {h}")
+                elif a == 'emit_any':
+                    if sid % 3 == 0:
                         body.append(("EMIT", r.randrange(8)))
                         self.emitting_scripts.add(sid)
-                else:
-                    body.append(f"active {h}")
+                    else:
+                        body.append(f"active {h}")
             self.scripts[sid] = body
 
     # ---- helpers -----------------------------------------------------------------------------------
@@ -100,14 +149,19 @@ class Gen:
 
     def pick_sig(self, tier=None):
         c = [s for s, (k, t) in self.sigs.items() if tier is None or t == tier]
+        if self.p.get('churn') or self.p.get('dense'):
+            # concentrate on few signals so that positions are recycled / layouts are dense
+            c2 = [s for s in c if s in (0, 1, 4)]
+            if c2 and self.r.random() < 0.8:
+                c = c2
         return self.r.choice(c) if c else None
 
     def pick_script(self, tier, deferred):
         r = self.r
-        if r.random() < 0.45:
+        if not self.p['slots'] or r.random() < 0.35:
             return 0
         cands = list(self.scripts.keys())
-        if tier == 1 or (deferred and self.profile not in ('fault', 'deferred')):
+        if tier == 1 or (deferred and not self.p.get('deferred_emit')):
             cands = [s for s in cands if s not in self.emitting_scripts]
         return r.choice(cands)
 
@@ -115,13 +169,19 @@ class Gen:
         r = self.r
         if self.conn_handles and r.random() < 0.85:
             return r.choice(self.conn_handles)
-        return r.randrange(NH)
+        return r.randrange(self.nh)
+
+    def sig_for(self, h, wrong=0.2):
+        s = self.handle_sig.get(h)
+        if s is not None and s in self.sigs and self.r.random() >= wrong:
+            return s
+        return self.pick_sig()
 
     def new_label(self):
         self.next_label += 1
         return self.next_label
 
-    # ---- top-level ops -----------------------------------------------------------------------------
+    # ---- op families -------------------------------------------------------------------------------
     def op_connect(self):
         r = self.r
         s = self.pick_sig()
@@ -129,189 +189,196 @@ class Gen:
             return
         kind, tier = self.sigs[s]
         n = KIND_ARITY[kind]
-        h = r.randrange(NH) if self.profile != 'churn' else r.randrange(NH)
-        c = r.random()
+        h = r.randrange(self.nh)
+        fl = r.choice(self.p['flavours'])
         lab = self.new_label()
         alive_evs = [e for e, a in self.evs.items() if a]
         dead_evs = [e for e, a in self.evs.items() if not a]
-        if self.profile == 'deferred' and alive_evs and r.random() < 0.6:
-            sid = self.pick_script(tier, True)
-            self.emit_line(f"connd {s} {h} {lab} {sid} {r.choice(alive_evs)}")
-        elif c < 0.40:
-            b = r.choice([0, 0, 0, 1, 2])
-            rr = r.randrange(n + 1) if r.random() < 0.5 else n
-            a = b + rr
-            sid = self.pick_script(tier, False)
+        if fl == 'deferred' and not alive_evs and not (dead_evs and self.fault('deadev')):
+            fl = 'plain'
+        if fl == 'plain':
+            self.emit_line(f"conn {s} {h} {lab} {n} {self.pick_script(tier, False)} 0")
+        elif fl == 'bound':
+            b = r.choice([0, 1, 1, 2])
+            rr = r.randrange(n + 1)
             bound = self.rand_vals(b)
-            self.emit_line(f"conn {s} {h} {lab} {a} {sid} {b}" + "".join(f" {x}" for x in bound))
-        elif c < 0.55:
-            sid = self.pick_script(tier, False)
-            v = NH + r.randrange(8)
-            self.emit_line(f"connr {s} {h} {lab} {sid} {v}")
-        elif c < 0.70:
-            sid = self.pick_script(tier, False)
-            self.emit_line(f"conn1 {s} {h} {lab} {sid}")
-        elif alive_evs or (dead_evs and self.profile == 'fault'):
-            sid = self.pick_script(tier, True)
-            if self.profile == 'fault' and dead_evs and r.random() < 0.2:
+            self.emit_line(f"conn {s} {h} {lab} {b + rr} {self.pick_script(tier, False)} {b}"
+                           + "".join(f" {x}" for x in bound))
+        elif fl == 'refl':
+            self.emit_line(f"connr {s} {h} {lab} {self.pick_script(tier, False)} {NH + r.randrange(8)}")
+        elif fl == 'single':
+            self.emit_line(f"conn1 {s} {h} {lab} {self.pick_script(tier, False)}")
+        else:
+            if dead_evs and self.fault('deadev') and r.random() < 0.25:
                 e = r.choice(dead_evs)
             elif alive_evs:
                 e = r.choice(alive_evs)
             else:
-                return
-            self.emit_line(f"connd {s} {h} {lab} {sid} {e}")
-        else:
-            sid = self.pick_script(tier, False)
-            self.emit_line(f"conn {s} {h} {lab} {n} {sid} 0")
+                e = r.choice(dead_evs)
+            self.emit_line(f"connd {s} {h} {lab} {self.pick_script(tier, True)} {e}")
         if h not in self.conn_handles:
             self.conn_handles.append(h)
         self.handle_sig[h] = s
-
-    def sig_for(self, h):
-        # mostly the signal the handle was issued by, sometimes any other one
-        s = self.handle_sig.get(h)
-        if s is not None and s in self.sigs and self.r.random() < 0.8:
-            return s
-        return self.pick_sig()
 
     def op_emit(self):
         s = self.pick_sig()
         if s is None:
             return
         n = KIND_ARITY[self.sigs[s][0]]
-        vals = self.rand_vals(n)
-        self.emit_line(f"emit {s} {n}" + "".join(f" {x}" for x in vals))
+        self.emit_line(f"emit {s} {n}" + "".join(f" {x}" for x in self.rand_vals(n)))
 
-    def op_misc(self):
+    def op_disc(self):
         r = self.r
-        fault = self.profile == 'fault'
-        c = r.random()
         h = self.pick_handle()
-        if c < 0.16:
+        c = r.random()
+        if c < 0.5:
             self.emit_line(f"disch {h}")
-        elif c < 0.22:
-            s = self.sig_for(h)
+        elif c < 0.85:
+            s = self.sig_for(h, 0.3 if self.fault('foreign') else 0.1)
             if s is not None:
-                self.emit_line(f"discs_safe {s} {h}" if not fault else f"discs {s} {h}")
-        elif c < 0.25:
+                self.emit_line(f"discs {s} {h}" if self.fault('foreign') else f"discs_safe {s} {h}")
+        else:
             s = self.pick_sig()
             if s is not None:
                 self.emit_line(f"discall {s}")
-        elif c < 0.35:
-            self.emit_line((f"blockh {h} {r.randrange(2)}") if fault else f"tryblockh {h} {r.randrange(2)}")
-        elif c < 0.40:
-            s = self.sig_for(h)
-            if s is not None and fault:
-                self.emit_line(f"blocks {s} {h} {r.randrange(2)}")
-            else:
-                self.emit_line(f"tryblockh {h} {r.randrange(2)}")
-        elif c < 0.45:
-            self.emit_line(f"isblockedh {h}" if fault else f"tryisblockedh {h}")
-        elif c < 0.48:
-            s = self.sig_for(h)
-            if s is not None and fault:
-                self.emit_line(f"isblockeds {s} {h}")
-            else:
-                self.emit_line(f"active {h}")
-        elif c < 0.58:
+
+    def op_block(self):
+        r = self.r
+        h = self.pick_handle()
+        b = r.randrange(2)
+        c = r.random()
+        if c < 0.6:
+            self.emit_line(f"blockh {h} {b}" if self.fault('inactive') else f"tryblockh {h} {b}")
+        elif self.fault('foreign') or self.fault('inactive'):
+            s = self.sig_for(h, 0.3 if self.fault('foreign') else 0.0)
+            if s is not None:
+                self.emit_line(f"blocks {s} {h} {b}")
+        else:
+            self.emit_line(f"tryblockh {h} {b}")
+
+    def op_query(self):
+        r = self.r
+        h = self.pick_handle()
+        c = r.random()
+        if c < 0.35:
             self.emit_line(f"active {h}")
-        elif c < 0.63:
-            s = self.sig_for(h)
+        elif c < 0.5:
+            self.emit_line(f"isblockedh {h}" if self.fault('inactive') else f"tryisblockedh {h}")
+        elif c < 0.6 and (self.fault('foreign') or self.fault('inactive')):
+            s = self.sig_for(h, 0.3)
+            if s is not None:
+                self.emit_line(f"isblockeds {s} {h}")
+        elif c < 0.8:
+            s = self.sig_for(h, 0.3)
             if s is not None:
                 self.emit_line(f"belongs {h} {s}")
-        elif c < 0.68:
+        else:
             self.emit_line(f"heq {h} {self.pick_handle()}")
-        elif c < 0.76:
-            d = r.randrange(NH)
+
+    def op_copy(self):
+        r = self.r
+        h = self.pick_handle()
+        if r.random() < 0.9:
+            d = r.randrange(self.nh)
             self.emit_line(f"hcopy {h} {d}")
-            if h in self.handle_sig:
-                self.handle_sig[d] = self.handle_sig[h]
             if d not in self.conn_handles:
                 self.conn_handles.append(d)
-        elif c < 0.78:
-            self.emit_line(f"hnew {r.randrange(NH)}")
-        elif c < 0.84:
-            # scoped connections
-            d = r.random()
-            if d < 0.4 or not self.scoped:
-                cid = self.next_scoped % 6
-                self.next_scoped += 1
-                if cid in self.scoped:
-                    self.emit_line(f"scassign {cid} {h}")
-                else:
-                    self.emit_line(f"scnew {cid} {h}")
-                    self.scoped.add(cid)
-            elif d < 0.6:
-                cid = r.choice(sorted(self.scoped))
-                self.emit_line(f"scdrop {cid}")
-                self.scoped.discard(cid)
-            elif d < 0.8 and len(self.scoped) >= 2:
-                a, b = r.sample(sorted(self.scoped), 2)
-                self.emit_line(f"scmove {a} {b}")
-            else:
-                a = r.choice(sorted(self.scoped))
-                free = [x for x in range(6) if x not in self.scoped]
-                if free:
-                    b = r.choice(free)
-                    self.emit_line(f"scmovector {a} {b}")
-                    self.scoped.add(b)
-        elif c < 0.90:
-            # blockers
-            if self.blockers and r.random() < 0.5:
-                b = self.blockers.pop() if r.random() < 0.7 else self.blockers.pop(r.randrange(len(self.blockers)))
-                self.emit_line(f"bldrop {b}")
-            else:
-                b = self.next_blocker
-                self.next_blocker += 1
-                self.emit_line(f"blnew {b} {h}" if fault else f"tryblnew {b} {h}")
-                self.blockers.append(b)
-        elif c < (0.94 if self.profile != 'deferred' else 0.99):
-            # evaluators
-            alive = [e for e, a in self.evs.items() if a]
-            if alive and r.random() < 0.7:
-                self.emit_line(f"eval {r.choice(alive)}")
-            elif fault and r.random() < 0.6:
-                droppable = [e for e in alive if e >= 3]
-                if droppable:
-                    e = r.choice(droppable)
-                    self.evs[e] = False
-                    self.emit_line(f"evdrop {e}")
+            if h in self.handle_sig:
+                self.handle_sig[d] = self.handle_sig[h]
         else:
-            # signal lifecycle and moves (same kind and tier only)
-            d = r.random()
-            s = self.pick_sig()
-            if s is None:
-                return
-            kind, tier = self.sigs[s]
-            same = [x for x, (k, t) in self.sigs.items() if k == kind and t == tier and x != s]
-            if d < 0.35 and same:
-                self.emit_line(f"sigmoveassign {r.choice(same)} {s}")
-            elif d < 0.6:
-                # move-construct a new signal object out of s, then destroy s and re-create it empty
-                # (ids 0..3 are tier 0, 4..7 tier 1; the moved-to object gets a spare id of the same tier)
-                spare = [x for x in (range(8, 12) if tier == 0 else range(12, 16)) if x not in self.sigs]
-                if spare:
-                    d2 = spare[0]
-                    self.emit_line(f"sigmovector {s} {d2}")
-                    self.sigs[d2] = (kind, tier)
-            elif d < 0.8:
-                self.emit_line(f"sigdel {s}")
-                del self.sigs[s]
-                self.emit_line(f"signew {s} {kind}")
-                self.sigs[s] = (kind, tier)
+            self.emit_line(f"hnew {r.randrange(self.nh)}")
+
+    def op_scoped(self):
+        r = self.r
+        h = self.pick_handle()
+        d = r.random()
+        if d < 0.4 or not self.scoped:
+            cid = self.next_scoped % 6
+            self.next_scoped += 1
+            if cid in self.scoped:
+                self.emit_line(f"scassign {cid} {h}")
             else:
-                spares = [x for x in self.sigs if x >= 8]
-                if spares:
-                    x = r.choice(spares)
-                    self.emit_line(f"sigdel {x}")
-                    del self.sigs[x]
+                self.emit_line(f"scnew {cid} {h}")
+                self.scoped.add(cid)
+        elif d < 0.6:
+            cid = r.choice(sorted(self.scoped))
+            self.emit_line(f"scdrop {cid}")
+            self.scoped.discard(cid)
+        elif d < 0.8 and len(self.scoped) >= 2:
+            a, b = r.sample(sorted(self.scoped), 2)
+            self.emit_line(f"scmove {a} {b}")
+        else:
+            a = r.choice(sorted(self.scoped))
+            free = [x for x in range(6) if x not in self.scoped]
+            if free:
+                b = r.choice(free)
+                self.emit_line(f"scmovector {a} {b}")
+                self.scoped.add(b)
+
+    def op_blocker(self):
+        r = self.r
+        h = self.pick_handle()
+        if self.blockers and r.random() < 0.5:
+            b = self.blockers.pop() if r.random() < 0.7 else self.blockers.pop(r.randrange(len(self.blockers)))
+            self.emit_line(f"bldrop {b}")
+        else:
+            b = self.next_blocker
+            self.next_blocker += 1
+            self.emit_line(f"blnew {b} {h}" if self.fault('inactive') else f"tryblnew {b} {h}")
+            self.blockers.append(b)
+
+    def op_ev(self):
+        r = self.r
+        alive = [e for e, a in self.evs.items() if a]
+        droppable = [e for e in alive if e >= 3]
+        if droppable and self.fault('deadev') and r.random() < 0.3:
+            e = r.choice(droppable)
+            self.evs[e] = False
+            self.emit_line(f"evdrop {e}")
+        elif alive:
+            self.emit_line(f"eval {r.choice(alive)}")
+
+    def op_move(self):
+        r = self.r
+        s = self.pick_sig()
+        if s is None:
+            return
+        kind, tier = self.sigs[s]
+        same = [x for x, (k, t) in self.sigs.items() if k == kind and t == tier and x != s]
+        d = r.random()
+        if d < 0.45 and same:
+            self.emit_line(f"sigmoveassign {r.choice(same)} {s}")
+        elif d < 0.8:
+            spare = [x for x in (range(8, 12) if tier == 0 else range(12, 16)) if x not in self.sigs]
+            if spare:
+                d2 = spare[0]
+                self.emit_line(f"sigmovector {s} {d2}")
+                self.sigs[d2] = (kind, tier)
+        else:
+            spares = [x for x in self.sigs if x >= 8]
+            if spares:
+                x = r.choice(spares)
+                self.emit_line(f"sigdel {x}")
+                del self.sigs[x]
+
+    def op_sigdel(self):
+        s = self.pick_sig()
+        if s is None:
+            return
+        kind, tier = self.sigs[s]
+        self.emit_line(f"sigdel {s}")
+        del self.sigs[s]
+        if s < 8:
+            self.emit_line(f"signew {s} {kind}")
+            self.sigs[s] = (kind, tier)
 
     def generate(self):
         r = self.r
         self.make_scripts()
-        # fixed population: tier-0 signals 0..3, tier-1 signals 4..7, mixed kinds
         kinds0 = [r.randrange(4) for _ in range(4)]
         kinds1 = [r.randrange(4) for _ in range(4)]
+        if self.p.get('dense') or self.p.get('churn'):
+            kinds0[1] = kinds0[0]
         for i in range(4):
             self.emit_line(f"signew {i} {kinds0[i]}")
             self.sigs[i] = (kinds0[i], 0)
@@ -320,49 +387,33 @@ class Gen:
             self.sigs[4 + i] = (kinds1[i], 1)
         for h in range(NH + 8):
             self.emit_line(f"hnew {h}")
-        for e in range(r.choice([1, 2, 3]) if self.profile != 'deferred' else 2):
-            self.evs[e] = True
-            self.next_ev = e + 1
-            self.emit_line(f"evnew {e}")
-        for e in range(self.next_ev, 3):
-            # evaluator variables named by slot scripts always exist
+        for e in range(3):
             self.evs[e] = True
             self.emit_line(f"evnew {e}")
-        self.next_ev = 3
-        if self.profile == 'fault':
-            # evaluators that may be destroyed while connections still refer to them (never named by slot scripts)
+        if self.fault('deadev'):
             for e in (3, 4):
                 self.evs[e] = True
                 self.emit_line(f"evnew {e}")
-            self.next_ev = 5
-        wc, we, wm = {'clean': (0.30, 0.25, 0.45), 'fault': (0.28, 0.27, 0.45), 'churn': (0.42, 0.13, 0.45),
-                      'deferred': (0.25, 0.35, 0.40)}[self.profile]
-        n = 0
-        while n < self.length:
-            c = r.random()
-            before = len(self.lines)
-            if c < wc:
-                self.op_connect()
-            elif c < wc + we:
-                self.op_emit()
-            else:
-                self.op_misc()
-            n += len(self.lines) - before if len(self.lines) > before else 0
-            if len(self.lines) == before:
-                n += 0
-                if r.random() < 0.05:
-                    n += 1
-        # resolve EMIT placeholders now that kinds are known (tier-1 kinds never change)
+        if self.p.get('two_evs'):
+            self.evs = {e: a for e, a in self.evs.items() if e < 2 or e >= 3}
+        fam = {'connect': self.op_connect, 'emit': self.op_emit, 'disc': self.op_disc, 'block': self.op_block,
+               'query': self.op_query, 'copy': self.op_copy, 'move': self.op_move, 'scoped': self.op_scoped,
+               'blocker': self.op_blocker, 'ev': self.op_ev, 'sigdel': self.op_sigdel}
+        names = [k for k, v in self.p['w'].items() if v > 0]
+        weights = [self.p['w'][k] for k in names]
+        start = len(self.lines)
+        guard = 0
+        while len(self.lines) - start < self.length and guard < 20 * self.length:
+            guard += 1
+            fam[r.choices(names, weights)[0]]()
         out = []
         for sid, body in sorted(self.scripts.items()):
             out.append(f"def {sid} {len(body)}")
             for b in body:
                 if isinstance(b, tuple):
                     t = b[1]
-                    kind = (kinds0 + kinds1)[t]
-                    nn = KIND_ARITY[kind]
-                    vals = self.rand_vals(nn)
-                    out.append(f"emit {t} {nn}" + "".join(f" {x}" for x in vals))
+                    nn = KIND_ARITY[(kinds0 + kinds1)[t]]
+                    out.append(f"emit {t} {nn}" + "".join(f" {x}" for x in self.rand_vals(nn)))
                 else:
                     out.append(b)
         return "\n".join(out + self.lines) + "\n"
